@@ -18,7 +18,8 @@ from .. import common, gw
 from ..common import Ctx
 
 THEOREMS = ["C16_snapshot_fixpoint", "C16_restore_into_same", "C16_restore_twice", "C16_snapshot_sound", "C16_no_requests",
-            "C16_writes_are_fragments", "C16_unexpired_unless_asked_partial", "C16_unexpired_unless_asked_refuted", "C16_wanted_msg_mono"]
+            "C16_writes_are_fragments", "C16_unexpired_unless_asked_partial", "C16_unexpired_unless_asked_refuted", "C16_wanted_msg_mono",
+            "C16_snapshot_independent_of_earlier_reads"]
 
 PRELUDE = ("From Coq Require Import List Bool Arith.\nFrom RV Require Import M_Snapshot.\nImport ListNotations.\n"
            "Set Printing Width 1000000.\nSet Printing Depth 1000000.\n"
